@@ -4,6 +4,7 @@
 package simredis
 
 import (
+	"os"
 	"bytes"
 	"fmt"
 	"sort"
@@ -369,6 +370,9 @@ func (s *Server) Dispatch(ss *Session, args [][]byte) bool {
 		if s.Cluster != nil {
 			if v := s.Cluster.route(s, ss, name, rest); v != nil {
 				ss.QueueErr = true
+				if w := simrt.Cur(); w != nil && os.Getenv("SIM_LOG_QUEUE_REDIRECTS") == "1" {
+					w.Logf("%s %s (queued in MULTI) %s %q => %s", s.Addr, ss.LabelString(), name, firstArg(rest), string(v.Str))
+				}
 				s.reply(ss, *v)
 				return true
 			}
@@ -480,6 +484,16 @@ func (s *Server) MarkExists(db int, key string) {
 		s.lenientKeys = map[string]bool{}
 	}
 	s.lenientKeys[strconv.Itoa(db)+"/"+key] = true
+}
+
+func firstArg(a [][]byte) string {
+	if len(a) == 0 {
+		return ""
+	}
+	if len(a[0]) > 40 {
+		return string(a[0][:40]) + "..."
+	}
+	return string(a[0])
 }
 
 func reservedEval(name string, args [][]byte) bool {
